@@ -56,6 +56,9 @@ func concurrentCmd(job []byte, out *Out) error {
 	var j struct {
 		NBytes int   `json:"nbytes"`
 		Seed   int64 `json:"seed"`
+		// ConcFirst: run the concurrent phase before anything else in this process has called a test, so that lazily
+		// initialised package state is first touched concurrently; results are compared with solitary results afterwards
+		ConcFirst bool `json:"concFirst"`
 		Plans  []struct {
 			ID         int    `json:"id"`
 			Goroutines int    `json:"goroutines"`
@@ -83,13 +86,56 @@ func concurrentCmd(job []byte, out *Out) error {
 	captureHash := sha256.Sum256(capture)
 	probe := genBytes("uni", 2500, 4242)
 	probeRes := make([]string, 18)
+	sol := make([][]string, 3)
+	solBits := make([][]string, 3)
+	repeatMismatch := 0
+	type pending struct {
+		ev   R
+		got  []string // "input|test|bytes|bits"
+		keys [][3]int
+		bits []string
+	}
+	var held []pending
+	if j.ConcFirst {
+		for _, pl := range j.Plans {
+			var mu sync.Mutex
+			var wg sync.WaitGroup
+			start := make(chan struct{})
+			pd := pending{ev: R{"ev": "conc", "id": pl.ID, "goroutines": pl.Goroutines, "panic": "", "nbytes": j.NBytes}}
+			panicMsg := ""
+			for _, tk := range pl.Tasks {
+				wg.Add(1)
+				go func(tk task) {
+					defer wg.Done()
+					defer func() {
+						if p := recover(); p != nil {
+							mu.Lock()
+							panicMsg = fmt.Sprint(p)
+							mu.Unlock()
+						}
+					}()
+					data := append([]byte(nil), inputs[tk.Input]...)
+					bits := randomness.B2bitArr(data)
+					<-start
+					g1 := runTask(tk.Test, data)
+					g2 := runBitsTask(tk.Test, bits)
+					mu.Lock()
+					pd.got = append(pd.got, g1)
+					pd.bits = append(pd.bits, g2)
+					pd.keys = append(pd.keys, [3]int{tk.Input, tk.Test, 0})
+					mu.Unlock()
+				}(tk)
+			}
+			close(start)
+			wg.Wait()
+			pd.ev["panic"] = panicMsg
+			held = append(held, pd)
+		}
+	}
 	for t := 1; t <= 17; t++ {
 		probeRes[t] = runTask(t, probe)
 	}
 	// solitary results (twice: determinism)
-	sol := make([][]string, 3)
-	solBits := make([][]string, 3)
-	repeatMismatch := 0
 	for i := range inputs {
 		sol[i] = make([]string, 18)
 		solBits[i] = make([]string, 18)
@@ -101,6 +147,19 @@ func concurrentCmd(job []byte, out *Out) error {
 			}
 			solBits[i][t] = runBitsTask(t, bits)
 		}
+	}
+	if j.ConcFirst {
+		for _, pd := range held {
+			mism := 0
+			for k, key := range pd.keys {
+				if pd.got[k] != sol[key[0]][key[1]] || pd.bits[k] != solBits[key[0]][key[1]] {
+					mism++
+				}
+			}
+			pd.ev["calls"], pd.ev["mismatch"], pd.ev["mutated"], pd.ev["tablesChanged"], pd.ev["repeatMismatch"] = len(pd.keys), mism, sha256.Sum256(capture) != captureHash, false, repeatMismatch
+			out.Emit(pd.ev)
+		}
+		return nil
 	}
 	for _, pl := range j.Plans {
 		ev := R{"ev": "conc", "id": pl.ID, "goroutines": pl.Goroutines, "panic": "", "nbytes": j.NBytes}
